@@ -1,9 +1,116 @@
-(* C02 — B-tree is a sorted set under every operation history: property theorems only. *)
-From Coq Require Import ZArith List Bool.
-From Zix Require Import BTreeSpec BTreeModel.
+(* C02 — B-tree positional queries: lower_bound, find, remove-next, increment.  Property theorems only.
+
+   Setting (see BTreeModel.v / BTreeProofsBase.v): (L, I) = (ZIX_BTREE_LEAF_VALS, ZIX_BTREE_INODE_VALS) with
+   I = L / 2 and 3 <= I (every page size >= 64 bytes with 8-byte pointers); elements are opaque, ordered by an
+   integer rank; [Inv] = the structural invariant of the tree reached by any history (Properties_C01.
+   btree_inv_reachable); [elements r] = in-order listing; an iterator is [IEnd] or [IAt path]; [valid r p] says
+   the path is a well-formed iterator into r; [pos r p] is the index in the listing of the element it designates. *)
+From Coq Require Import ZArith List Bool Arith.
+From Zix Require Import BTreeSpec BTreeModel BTreeProofsBase BTreeProofsIter BTreeProofsFind BTreeProofsRemove.
 Import ListNotations.
 
-(* placeholder while the proofs are being built: the empty tree lists nothing *)
-Theorem btree_empty_elements2 : forall (elt : Type), elements elt (root elt (empty_tree elt)) = [].
-Proof. reflexivity. Qed.
-Print Assumptions btree_empty_elements2.
+(* lower_bound with a search comparator ck (ck x = compare_key(x, key)) whose answers are monotone along the
+   tree order (the header's "compatible" condition): the iterator stands at the first element that is not
+   less than the key -- its position is the number of elements that are less -- or is the end iterator if there
+   is none.  For a wildcard comparator this is the FIRST of the matching elements. *)
+Theorem lower_bound_least :
+  forall (elt : Type) (rank : elt -> Z) (dflt : elt) (L I : nat), I = L / 2 -> 3 <= I ->
+  forall (t : tree elt) (ck : elt -> comparison),
+    Inv rank L I t -> monotone elt ck (elements (root t)) ->
+    (let '(it, lg) := lower_bound dflt t ck in
+     iter_valid (root t) it /\
+     iter_pos (root t) it =
+       (let k := length (filter (fun x => match ck x with Lt => true | _ => false end) (elements (root t))) in
+        if k <? length (elements (root t)) then Some k else None)) /\
+    match set_lower_bound elt ck (elements (root t)) with
+    | Some x => exists p, fst (lower_bound dflt t ck) = IAt p /\ iter_get dflt (root t) (IAt p) = x
+    | None => fst (lower_bound dflt t ck) = IEnd
+    end.
+Proof.
+  intros elt rank dflt L I HI HI3 t ck Hinv Hm. split.
+  - pose proof (lower_bound_pos elt rank dflt L I HI HI3 t ck Hinv Hm) as H.
+    destruct (lower_bound dflt t ck) as [it lg]. destruct H as (H1 & H2 & _). auto.
+  - exact (lower_bound_least elt rank dflt L I HI HI3 t ck Hinv Hm).
+Qed.
+Print Assumptions lower_bound_least.
+
+(* argument roles: in the model the search comparator is [ck stored] with the key fixed as second argument;
+   every value it is called with is an element stored in the tree *)
+Theorem lower_bound_roles :
+  forall (elt : Type) (rank : elt -> Z) (dflt : elt) (L I : nat), I = L / 2 -> 3 <= I ->
+  forall (t : tree elt) (ck : elt -> comparison),
+    Inv rank L I t -> monotone elt ck (elements (root t)) ->
+    forall x, In x (snd (lower_bound dflt t ck)) -> In x (elements (root t)).
+Proof.
+  intros elt rank dflt L I HI HI3 t ck Hinv Hm.
+  pose proof (lower_bound_pos elt rank dflt L I HI HI3 t ck Hinv Hm) as H.
+  destruct (lower_bound dflt t ck) as [it lg]. destruct H as (_ & _ & H). exact H.
+Qed.
+Print Assumptions lower_bound_roles.
+
+(* find: SUCCESS with a valid iterator that dereferences to the stored element of that rank, or NOT_FOUND/end *)
+Theorem find_iter_deref :
+  forall (elt : Type) (rank : elt -> Z) (dflt : elt) (L I : nat), I = L / 2 -> 3 <= I ->
+  forall (t : tree elt) (e : elt), Inv rank L I t ->
+    let '(st, it, lg) := find rank dflt t e in
+    match set_find elt rank (elements (root t)) (rank e) with
+    | Some x => st = SUCCESS /\ exists p, it = IAt p /\ valid (root t) p /\
+                  nth_error (elements (root t)) (pos (root t) p) = Some x /\ iter_get dflt (root t) it = x
+    | None => st = NOT_FOUND /\ it = IEnd
+    end.
+Proof. exact find_refines. Qed.
+Print Assumptions find_iter_deref.
+
+(* remove: after a successful removal `next` is a valid iterator of the NEW tree standing at the in-order
+   successor of the removed element (position = number of smaller elements), the end iterator iff the removed
+   element was the largest *)
+Theorem remove_next_is_successor :
+  forall (elt : Type) (rank : elt -> Z) (dflt : elt) (L I : nat), I = L / 2 -> 3 <= I ->
+  forall (t : tree elt) (e : elt), Inv rank L I t ->
+    let '(st, out, t', it, lg) := remove rank dflt L I t e in
+    st = SUCCESS ->
+    iter_valid (root t') it /\
+    iter_pos (root t') it =
+      (let k := length (filter (fun x => (rank x <? rank e)%Z) (elements (root t'))) in
+       if k <? length (elements (root t')) then Some k else None).
+Proof. exact remove_next. Qed.
+Print Assumptions remove_next_is_successor.
+
+(* increment: from any valid position, one step to the next position of the listing (REACHED_END and the end
+   iterator exactly at the last one); the element read at a position is the listing's element *)
+Theorem iter_increment_successor :
+  forall (elt : Type) (rank : elt -> Z) (dflt : elt) (L I : nat), I = L / 2 -> 3 <= I ->
+  forall (r : node elt) (p : list nat), shape_ok L I r -> valid r p ->
+    (pos r p < length (elements r) /\ iter_get dflt r (IAt p) = nth (pos r p) (elements r) dflt) /\
+    match iter_increment r (IAt p) with
+    | (st, IAt q) => st = SUCCESS /\ valid r q /\ pos r q = S (pos r p)
+    | (st, IEnd) => st = REACHED_END /\ S (pos r p) = length (elements r)
+    end.
+Proof.
+  intros elt rank dflt L I HI HI3 r p Hs Hv. split.
+  - exact (get_pos elt rank dflt L I HI HI3 r p Hs Hv).
+  - exact (increment_pos elt rank dflt L I HI HI3 r p Hs Hv).
+Qed.
+Print Assumptions iter_increment_successor.
+
+(* walking from any valid iterator visits exactly the remaining elements, in order, then stops at end *)
+Theorem iter_walk_suffix :
+  forall (elt : Type) (rank : elt -> Z) (dflt : elt) (L I : nat), I = L / 2 -> 3 <= I ->
+  forall (r : node elt) (p : list nat) (fuel : nat), shape_ok L I r -> valid r p ->
+    length (elements r) - pos r p <= fuel ->
+    walk dflt fuel r (IAt p) = skipn (pos r p) (elements r).
+Proof. exact walk_suffix. Qed.
+Print Assumptions iter_walk_suffix.
+
+(* two valid iterators compare equal exactly when they stand at the same position (all end iterators equal) *)
+Theorem iter_equals_iff_same_position :
+  forall (elt : Type) (rank : elt -> Z) (dflt : elt) (L I : nat), I = L / 2 -> 3 <= I ->
+  forall (r : node elt) (a b : iter), shape_ok L I r -> iter_valid r a -> iter_valid r b ->
+    (iter_equals a b = true <-> iter_pos r a = iter_pos r b).
+Proof. exact iter_equals_iff_same_position. Qed.
+Print Assumptions iter_equals_iff_same_position.
+
+(* non-vacuity: the configurations of the four page sizes meet the hypotheses, and a tree of height 2 at page
+   size 64 on which lower_bound of an absent key past the end of the first leaf climbs to the separator *)
+Example configs_ok : (3 = 6 / 2 /\ 3 <= 3) /\ (7 = 14 / 2 /\ 3 <= 7) /\ (15 = 30 / 2 /\ 3 <= 15) /\ (255 = 510 / 2 /\ 3 <= 255).
+Proof. repeat split; try reflexivity; repeat constructor. Qed.
